@@ -5,8 +5,10 @@ pid=$1; patch=$2; tier=${3:-quick}
 cd /repo || exit 2
 if ! git diff --quiet; then echo "/repo is dirty"; exit 2; fi
 git apply "$patch" || { echo "patch does not apply"; exit 2; }
+cp /verif/evidence/$pid.json /tmp/evidence_backup_$pid.json 2>/dev/null
 cd /verif && timeout 1200 ./check "$pid" --tier "$tier" > /tmp/try_mutant_$pid.log 2>&1; rc=$?
 git -C /repo checkout -- .
+cp /tmp/evidence_backup_$pid.json /verif/evidence/$pid.json 2>/dev/null
 grep -E "^VIOLATION|^KNOWN|tier=" /tmp/try_mutant_$pid.log | cut -c1-300
 grep -E "failing input|disagreement|broken:" /tmp/try_mutant_$pid.log | cut -c1-260 | head -4
 echo "exit=$rc"
